@@ -407,7 +407,7 @@ impl ArrayImpl {
                 }
             },
             Self::Int16(a) => match data_type {
-                Type::Bool => Self::new_bool(unary_op(a.as_ref(), |&i| i != 0)),
+                Type::Bool => Self::new_bool(clear_null(unary_op(a.as_ref(), |&i| i != 0))),
                 Type::Int16 => Self::Int16(a.clone()),
                 Type::Int32 => Self::new_int32(unary_op(a.as_ref(), |&b| b as i32)),
                 Type::Int64 => Self::new_int64(unary_op(a.as_ref(), |&b| b as i64)),
@@ -428,7 +428,7 @@ impl ArrayImpl {
                 }
             },
             Self::Int32(a) => match data_type {
-                Type::Bool => Self::new_bool(unary_op(a.as_ref(), |&i| i != 0)),
+                Type::Bool => Self::new_bool(clear_null(unary_op(a.as_ref(), |&i| i != 0))),
                 Type::Int16 => Self::new_int16(try_unary_op(a.as_ref(), |&b| {
                     b.to_i16()
                         .ok_or(ConvertError::Overflow(DataValue::Int32(b), Type::Int16))
@@ -452,7 +452,7 @@ impl ArrayImpl {
                 }
             },
             Self::Int64(a) => match data_type {
-                Type::Bool => Self::new_bool(unary_op(a.as_ref(), |&i| i != 0)),
+                Type::Bool => Self::new_bool(clear_null(unary_op(a.as_ref(), |&i| i != 0))),
                 Type::Int16 => Self::new_int16(try_unary_op(a.as_ref(), |&b| {
                     b.to_i16()
                         .ok_or(ConvertError::Overflow(DataValue::Int64(b), Type::Int16))
@@ -479,7 +479,7 @@ impl ArrayImpl {
                 }
             },
             Self::Float64(a) => match data_type {
-                Type::Bool => Self::new_bool(unary_op(a.as_ref(), |&f| f != 0.0)),
+                Type::Bool => Self::new_bool(clear_null(unary_op(a.as_ref(), |&f| f != 0.0))),
                 Type::Int16 => Self::new_int16(try_unary_op(a.as_ref(), |&b| {
                     b.to_i16()
                         .ok_or(ConvertError::Overflow(DataValue::Float64(b), Type::Int16))
@@ -560,7 +560,7 @@ impl ArrayImpl {
             Self::Blob(_) => todo!("cast array"),
             Self::Vector(_) => todo!("cast array"),
             Self::Decimal(a) => match data_type {
-                Type::Bool => Self::new_bool(unary_op(a.as_ref(), |&d| !d.is_zero())),
+                Type::Bool => Self::new_bool(clear_null(unary_op(a.as_ref(), |&d| !d.is_zero()))),
                 Type::Int16 => Self::new_int16(try_unary_op(a.as_ref(), |&d| {
                     d.to_i16()
                         .ok_or(ConvertError::FromDecimalError(DataType::Int16, d))
